@@ -111,6 +111,9 @@ def check_context_presence(prog, rep, rule):
                 good, why = False, "validation is not made against the caller's context map"
             elif not all(any(y == v.term for y in [a] + list(subterms(a))) for a in e.args[1:3]):
                 good, why = False, "the maps handed to extend_context_with_wild_cards do not derive from validate_and_divide_wild_cards"
+            elif v.loops and not all(accumulates(a, v.term) for a in e.args[1:3]):
+                good, why = False, ("the maps handed to extend_context_with_wild_cards do not accumulate the validated context of every formula "
+                                    "(a later formula's map replaces the earlier ones): labels of the other formulae are missing at evaluation")
             else:
                 tr = v.args[0]
                 base = [y for y in [tr] + list(subterms(tr)) if y[0] == "call" and y[1].endswith("parse_and_minimize_extended_formula")]
@@ -119,6 +122,23 @@ def check_context_presence(prog, rep, rule):
                     good, why = False, "the evaluated tree is not the tree that was validated"
         rep.check(good, rule, f"{ep.name}/validated", f"{ep.file}:{ep.line}", "trees are validated against the context before evaluation", why)
     return n
+
+
+def accumulates(t, vterm):
+    """`t` (a map built in the loop over the formulae) gathers what `vterm` yields in *every* iteration: a loop variable that is
+    extended / inserted into (and keeps its previous content), or the closed form of such a loop."""
+    for y in [t] + list(subterms(t)):
+        if y[0] in ("collect", "collectmap") and any(z == vterm for z in subterms(y)):
+            return True
+        if y[0] == "mu":
+            lv = ("loopvar", y[1], y[2])
+            step = y[4]
+            keeps = any(z == lv for z in [step] + list(subterms(step)))
+            adds = any(z[0] == "mut" and z[2][0] == "call" and isinstance(z[2][1], str) and z[2][1].rsplit("::", 1)[-1] in ("extend", "insert", "push", "entry")
+                       and any(w == vterm for a_ in z[2][2] for w in [a_] + list(subterms(a_))) for z in [step] + list(subterms(step)))
+            if keeps and adds:
+                return True
+    return False
 
 
 def leaves(t, conds=()):
